@@ -299,4 +299,45 @@ pub fn hcalc_reducer_scrambled(s: &mut Src) -> R {
     Ok(())
 }
 
-crate::harness_table!(HCALC: hcalc_small, hcalc_schur_small, hcalc_triang_small, hcalc_reducer_small, hcalc_decomp_small, hcalc_scrambled, hcalc_reducer_scrambled);
+// C12 on arbitrary shapes (BOUNDED, sampled): Schur::from_partial_triangular over F_5 on m x n matrices (m, n <= 5) whose leading r x r
+// block (0 <= r <= 3) is triangular with non-zero diagonal: S = D - C A^-1 B (A^-1 B by substitution here), F_tgt M B_src = S, F B = I on both
+// sides, F_tgt M = [0 | S], M B_src = [0 ; S].  Includes r = 0, r = m, r = n and empty complements.
+pub fn hcalc_schur_shapes(s: &mut Src) -> R {
+    use yui::FF;
+    use yui_matrix::sparse::schur::Schur;
+    use yui_matrix::sparse::triang::TriangularType;
+    use yui_matrix::dense::Mat;
+    type F = FF<5>;
+    let r = s.small(0, 3) as usize;
+    let (m, n) = (r + s.small(0, 2) as usize, r + s.small(0, 2) as usize);
+    let mut e = [0i64; 25]; for x in e.iter_mut() { *x = s.small(0, 4); }
+    let upper = s.bool();
+    for i in 0..r { for j in 0..r { if (upper && i > j) || (!upper && i < j) { e[i * 5 + j] = 0; } } }
+    pre!((0..r).all(|i| e[i * 5 + i] != 0));
+    reach!();
+    let f = |x: i64| F::new(x as i32);
+    let at = |i: usize, j: usize| f(e[i * 5 + j]);
+    let mm = SpMat::from_dense_data((m, n), (0..m).flat_map(|i| (0..n).map(move |j| (i, j))).map(|(i, j)| at(i, j)).collect::<Vec<_>>());
+    let t = if upper { TriangularType::Upper } else { TriangularType::Lower };
+    let sch = Schur::from_partial_triangular(t, &mm, r, true);
+    // X = A^-1 B (r x (n - r)) by substitution, then S = D - C X
+    let z = F::new(0);
+    let mut x = vec![vec![z; n - r]; r];
+    for c in 0..n - r {
+        let order: Vec<usize> = if upper { (0..r).rev().collect() } else { (0..r).collect() };
+        for &i in &order { let mut v = at(i, r + c); for k in 0..r { if k != i && (if upper { k > i } else { k < i }) { v = v - at(i, k) * x[k][c]; } } x[i][c] = v / at(i, i); }
+    }
+    let want = Mat::from_data((m - r, n - r), (0..m - r).flat_map(|i| (0..n - r).map(move |j| (i, j))).map(|(i, j)| { let mut v = at(r + i, r + j); for k in 0..r { v = v - at(r + i, k) * x[k][j]; } v }).collect::<Vec<_>>());
+    let sm = sch.complement().clone().into_dense();
+    ob!(sm == want, "Schur::S==D-C.Ainv.B");
+    let (ts, tt) = (sch.trans_src().unwrap(), sch.trans_tgt().unwrap());
+    let (fs, bs, ft, bt) = (ts.forward_mat(), ts.backward_mat(), tt.forward_mat(), tt.backward_mat());
+    ob!((&(&ft * &mm) * &bs).into_dense() == sm, "Schur::Ftgt.M.Bsrc==S");
+    ob!((&fs * &bs).into_dense() == Mat::id(n - r) && (&ft * &bt).into_dense() == Mat::id(m - r), "Schur::F.B==I");
+    let fm = (&ft * &mm).into_dense(); let mb = (&mm * &bs).into_dense();
+    ob!((0..m - r).all(|i| (0..n).all(|j| fm[(i, j)] == if j < r { z } else { sm[(i, j - r)] })), "Schur::Ftgt.M==[0|S]");
+    ob!((0..m).all(|i| (0..n - r).all(|j| mb[(i, j)] == if i < r { z } else { sm[(i - r, j)] })), "Schur::M.Bsrc==[0;S]");
+    Ok(())
+}
+
+crate::harness_table!(HCALC: hcalc_small, hcalc_schur_small, hcalc_triang_small, hcalc_reducer_small, hcalc_decomp_small, hcalc_scrambled, hcalc_reducer_scrambled, hcalc_schur_shapes);
